@@ -105,6 +105,8 @@ def _run_ops_impl(rng, nops, script=None):
         elif k == 6:
             fac._finished_receiving()
             finished[0] = True
+        elif k == 7:
+            held[id].close()
         elif k == 5:
             try:
                 if op[2]:
@@ -126,7 +128,7 @@ def _run_ops_impl(rng, nops, script=None):
         if k == 2:
             # the model's LNew covers a fresh object under an id without a stale callback registration
             return not (id in fac._callbacks and id not in fac._channels)
-        if k in (3, 4, 5):
+        if k in (3, 4, 5, 7):
             return id in held
         return True
 
@@ -140,7 +142,7 @@ def _run_ops_impl(rng, nops, script=None):
                 break
         else:
             id = rng.choice(IDS[:3] if rng.random() < 0.8 else IDS)
-            k = rng.choices([0, 1, 2, 3, 4, 5, 6], [30, 8, 14, 6, 30, 8, 2])[0]
+            k = rng.choices([0, 1, 2, 3, 4, 5, 6, 7], [30, 8, 14, 6, 30, 8, 2, 6])[0]
             if k == 0:
                 val[0] += 1
                 op = [0, id, val[0]]
